@@ -53,6 +53,24 @@ int main(int argc,char**argv){ uint64_t seed=argc>1?strtoull(argv[1],0,0):1; int
     for(int w=0; w<40 && !atomic_load(&inv); w++) usleep(50000);
     if(!atomic_load(&inv)) fail("a timer whose settings were replaced never fired within 2 s of its new start (400 ms): clock",c,0,0);
     dispatch_source_cancel(ds); dispatch_release(ds); dispatch_release(tq); c+=once*3; }
+  // a repeating timer suspended across exactly one interval boundary and resumed in the middle of the next interval: the firing that
+  // happened while it was suspended is delivered after the resume; the total reported never exceeds the boundaries that have passed
+  for(int c=0;c<3 && !viol;c++){ dispatch_queue_t tq=dispatch_queue_create("c11s",NULL);
+    dispatch_time_t base = c==0? DISPATCH_TIME_NOW : c==1? (1ull<<63) : DISPATCH_WALLTIME_NOW; uint64_t iv=120000000ull;
+    dispatch_source_t ds=dispatch_source_create(DISPATCH_SOURCE_TYPE_TIMER,0,0,tq); __block _Atomic long tot=0; __block _Atomic int inv=0;
+    uint64_t st=clk(CLK[c])+60000000ull;
+    dispatch_source_set_event_handler(ds,^{ uint64_t tn=clk(CLK[c]); unsigned long n=dispatch_source_get_data(ds); atomic_fetch_add(&inv,1);
+      long t=atomic_fetch_add(&tot,(long)n)+(long)n; long bounds = tn>=st ? (long)((tn-st)/iv)+1 : 0;
+      if(t>bounds) fail("a repeating timer suspended across one boundary and resumed mid-interval reported more firings than interval boundaries passed: clock/total/boundaries",c,t,bounds); });
+    dispatch_source_set_timer(ds,dispatch_time(base,60000000ll),iv,0); dispatch_activate(ds);
+    for(int w=0; w<100 && !atomic_load(&inv); w++) usleep(10000);          // the first firing, at +60 ms
+    usleep(15000); dispatch_suspend(ds);                                   // ~ +85 ms
+    uint64_t until=st+iv+25000000ull; while(clk(CLK[c])<until) usleep(2000);   // the boundary at +180 ms passes while suspended
+    int before=atomic_load(&inv); dispatch_resume(ds);                     // ~ +205 ms: before the boundary at +300 ms
+    for(int w=0; w<100 && atomic_load(&inv)==before; w++) usleep(10000);
+    if(atomic_load(&inv)==before) fail("a repeating timer that fired while suspended did not run its handler within 1 s of the resume: clock",c,0,0);
+    usleep(150000);
+    dispatch_source_cancel(ds); dispatch_release(ds); dispatch_release(tq); }
   struct after *A=calloc((size_t)na,sizeof *A);
   uint64_t horizon_ms = 1500;
   for(int i=0;i<na;i++){ struct after *a=&A[i]; a->clock=(int)(rnd()%3); int64_t d;
